@@ -34,17 +34,17 @@ theorem C08_nil_tree_is_error (env : Env) (f : Nat) (e : Esc) (c : Ctx) (name : 
     (ht : e.template env name = some none) :
     ∃ e', escapeTree env (f + 1) e c name = .ok (e', Ctx.errorCtx .noSuchTemplate, mangle c name) := by
   unfold escapeTree
-  simp only []
+  simp only [hmemo]
+  -- `called` and the classification bookkeeping are the only fields updated before the template lookup,
+  -- and `Esc.template` reads `derived` only
+  have key : ∀ e' : Esc, e'.derived = e.derived → Esc.template env e' name = some none := by
+    intro e' hd
+    unfold Esc.template at ht ⊢
+    rw [hd]; exact ht
   split
-  · rename_i out ho
-    -- `called` is the only field updated before the memo lookup
-    rw [hmemo] at ho; cases ho
-  · rename_i hn
-    have : Esc.template env { e with called := if e.called.contains (mangle c name) then e.called else e.called ++ [mangle c name] } name
-        = some none := by
-      unfold Esc.template at ht ⊢; exact ht
-    simp only [this]
-    exact ⟨_, rfl⟩
+  · rename_i h; unfold Esc.template at h ht; simp only [] at h; rw [ht] at h; cases h
+  · exact ⟨_, rfl⟩
+  · rename_i tr h; unfold Esc.template at h ht; simp only [] at h; rw [ht] at h; cases h
 
 /-- **An analysis error never reaches execution**: Execute returns the error and the bytes written are empty. -/
 theorem C08_error_not_panic (w : World) (h oid : Nat) (o : TObj) (d : Value) (w' : World) (code : ErrCode)
@@ -73,9 +73,9 @@ as classification.
 
 /-- non-vacuity: a range loop with {{break}} now fails to analyse (and does not panic) -/
 example :
-    let w := (Api.step (Api.step { v := liteValidators } (.new 0 "t")).1
+    let w := (Api.step (Api.step { v := liteValidators, fuel := 40 } (.new 0 "t")).1
       (.parse 0 [{ name := "t", root := .cons (.rangeN 0 { cmds := [{ args := [.dot] }] } (.cons (.brk 1) .nil) .nil) .nil }])).1
     (Api.step w (.exec 0 .noValue)).2.str = "err:analysis:ErrEscapeAction -" := by
-  decide
+  decide +kernel
 
 end SafeHtml.Props.C08
